@@ -135,12 +135,46 @@ def two_episodes(ctx):
                           {'reset': d, 'other_before': gen.show_state(before_b), 'other_after': gen.show_state(wire.cstate(b))})
 
 
+def functional_interface(ctx):
+    """a door changes status only in the state in which it was ACTUATED: the step is made through the copying functional interface of an
+    environment; the state the step was taken FROM still has its door as it was, and steps from it that do not actuate leave it so"""
+    from vt.suites import C03
+    r = ctx.rng
+    DOOR = gen.TY['Door']
+    for k in range(120 if ctx.tier == 'quick' else 1200):
+        cs = C03.door_on_the_way(r) if r.random() < 0.6 else tsuite.interactive_world(r)
+        doors = {(y, x): c for y, row in enumerate(cs[0]) for x, c in enumerate(row) if c[0] == DOOR}
+        if not doors:
+            continue
+        label, env, desc = C03.interactive_env(gen.shape_of(cs[0]), r)
+        s = wire.mkstate(cs)
+        try:
+            env.set_seed(r.randrange(1 << 30))
+            s2, _, _ = env.functional_step(s, impl.ACTS[6])
+            after_actuate = wire.cstate(s)
+            s3, _, _ = env.functional_step(s, impl.ACTS[r.choice([4, 5, 0])])        # a turn or a move FROM THE SAME state
+            third = wire.cstate(s3)
+        except Exception:  # noqa: BLE001  (raising steps are C01's business)
+            continue
+        ctx.case(('functional-door', cs), wire.cstate(s2) != cs, None)
+        ctx.count('functional interface', 'ACTUATE, then another step from the same state')
+        case = {'state': gen.show_state(cs), 'wire_state': cs}
+        for (y, x), c in doors.items():
+            if after_actuate[0][y][x] != c:
+                ctx.violation(f'after functional_step(state, ACTUATE) the door at {(y, x)} of the state the step was taken FROM has status {after_actuate[0][y][x][1]} instead of {c[1]}', case)
+                return
+            if third[0][y][x][0] == DOOR and third[0][y][x] != c:
+                ctx.violation(f'a step that does not actuate returns the door at {(y, x)} with status {third[0][y][x][1]} instead of {c[1]} (it was opened in another state)', case)
+                return
+
+
 def run(ctx):
     ctx.rule = ('corpus; full door table 3 statuses x 5 colours x 9 held items x 4 headings x 8 actions; box table; random door/key/box '
                 'states through every function and compositions; non-trivial = the step changed the state or raised')
     tsuite.run_cases(ctx, cases(ctx), oracle)
     tsuite.run_histories(ctx, 150 if ctx.tier == 'quick' else 1500, oracle)
     two_episodes(ctx)
+    functional_interface(ctx)
 
 
 def replay(ctx, case):
